@@ -224,7 +224,7 @@ func (p *exprParser) parseBin(minPrec int) Expr {
 }
 
 func (p *exprParser) parseUnary() Expr {
-	if p.l.kind == 'o' && (p.l.tok == "!" || p.l.tok == "-" || p.l.tok == "+") {
+	if p.l.kind == 'o' && (p.l.tok == "!" || p.l.tok == "-" || p.l.tok == "+" || p.l.tok == "*") {
 		op := p.l.tok
 		p.l.next()
 		x := p.parseUnary()
